@@ -2,8 +2,16 @@
 driver, the Rust harness against /repo's current working tree.  All under one flock."""
 import os, subprocess, sys, time, fcntl, json, shutil, hashlib, re
 ROOT = os.path.abspath(os.path.join(os.path.dirname(__file__), "..", ".."))
-CACHE = os.path.join(ROOT, ".cache")
-COQ = os.path.join(ROOT, "coq")
+SRC = ROOT        # where the committed machinery lives (coq/, driver/, harness/, corpus/, known_findings.json)
+# Scratch mode (testing the machinery against another checkout, e.g. a seeded worktree, possibly several at once): VERIF_REPO names the
+# checkout and VERIF_SCRATCH a private directory that receives a copy of coq/, every build product, evidence and replays.
+# The registered commands never set these: they work on /repo and write under /verif.
+REPO = os.environ.get("VERIF_REPO", "/repo")
+SCRATCH = os.environ.get("VERIF_SCRATCH")
+if REPO != "/repo" and not SCRATCH: raise SystemExit("VERIF_REPO needs VERIF_SCRATCH (a private directory for builds and outputs)")
+OUT = SCRATCH or ROOT      # evidence/ and replays/ go here
+CACHE = os.path.join(SCRATCH, "cache") if SCRATCH else os.path.join(ROOT, ".cache")
+COQ = os.path.join(SCRATCH, "coq") if SCRATCH else os.path.join(ROOT, "coq")
 DRIVER = os.path.join(CACHE, "driver", "model_driver")
 HARNESS = os.path.join(CACHE, "target", "debug", "cgt-verif-harness")
 CLI = os.path.join(CACHE, "target", "debug", "cgt-tool")
@@ -26,8 +34,29 @@ class Lock:
     def __exit__(self, *a):
         fcntl.flock(self.f, fcntl.LOCK_UN); self.f.close()
 
+def sync_scratch():
+    """scratch mode: a private copy of the Coq development (sources only newer than the copy are replaced, compiled files kept)"""
+    if not SCRATCH: return
+    os.makedirs(COQ, exist_ok=True)
+    rc, out = sh(["rsync", "-a", "--update", "--exclude", "*.vo", "--exclude", "*.vok", "--exclude", "*.vos", "--exclude", "*.glob", "--exclude", ".*.aux",
+                  "--exclude", "Makefile*", "--exclude", "model.ml*", "--exclude", "Generated/", os.path.join(SRC, "coq") + "/", COQ + "/"])
+    if rc != 0: raise BuildError("rsync", out)
+    os.makedirs(os.path.join(COQ, "Generated"), exist_ok=True)
+
+def harness_dir(name):
+    """the harness crate; in scratch mode a copy whose path dependencies point at the other checkout"""
+    src = os.path.join(SRC, name)
+    if REPO == "/repo": return src
+    dst = os.path.join(CACHE, name + "_src"); os.makedirs(os.path.join(dst, "src"), exist_ok=True)
+    for rel in ("Cargo.toml", "src/main.rs"):
+        t = open(os.path.join(src, rel)).read()
+        if rel == "Cargo.toml": t = t.replace("/repo/crates", REPO + "/crates")
+        q = os.path.join(dst, rel)
+        if not os.path.exists(q) or open(q).read() != t: open(q, "w").write(t)
+    return dst
+
 def gen_params():
-    rc, out = sh([sys.executable, os.path.join(ROOT, "tools", "gen_params.py")])
+    rc, out = sh([sys.executable, os.path.join(ROOT, "tools", "gen_params.py")], env=dict(ENV, VERIF_REPO=REPO, VERIF_COQ=COQ))
     if rc != 0: raise BuildError("gen_params", out)
     return json.loads(out.strip().splitlines()[-1])
 
@@ -58,8 +87,8 @@ def build_driver():
     open(stamp, "w").write(h.hexdigest())
 
 def build_harness():
-    h = os.path.join(ROOT, "harness")
-    shutil.copy("/repo/Cargo.lock", os.path.join(h, "Cargo.lock"))
+    h = harness_dir("harness")
+    shutil.copy(os.path.join(REPO, "Cargo.lock"), os.path.join(h, "Cargo.lock"))
     rc, out = sh("cargo build --offline 2>&1", cwd=h, timeout=1700)
     if rc != 0:
         # a lock file from a changed tree may not resolve for the harness; retry letting cargo adjust it
@@ -67,18 +96,19 @@ def build_harness():
     if rc != 0: raise BuildError("cargo-harness", out)
 
 def build_pdf_harness():
-    h = os.path.join(ROOT, "harness_pdf")
-    shutil.copy("/repo/Cargo.lock", os.path.join(h, "Cargo.lock"))
+    h = harness_dir("harness_pdf")
+    shutil.copy(os.path.join(REPO, "Cargo.lock"), os.path.join(h, "Cargo.lock"))
     rc, out = sh("cargo build --offline 2>&1", cwd=h, timeout=1700)
     if rc != 0: raise BuildError("cargo-harness-pdf", out)
 
 def build_cli():
-    rc, out = sh("cargo build --offline -p cgt-cli 2>&1", cwd="/repo", timeout=1700)
+    rc, out = sh("cargo build --offline -p cgt-cli 2>&1", cwd=REPO, timeout=1700)
     if rc != 0: raise BuildError("cargo-cli", out)
 
 def build_all(coq_targets, need_cli=False, need_pdf=False):
     t0 = time.time()
     with Lock():
+        sync_scratch()
         params = gen_params()
         build_driver()
         log = coq_make(coq_targets) if coq_targets else ""
